@@ -12,7 +12,8 @@ Hash(s) == LET RECURSIVE H(_)
 Ints == {-3, -2, -1, 0, 1, 2, 4}
 SliceArgs == { <<NONEV, NONEV, -1>>, <<1, NONEV, 1>>, <<NONEV, 2, 1>>, <<1, 3, 1>>, <<NONEV, NONEV, 2>>, <<-1, NONEV, -2>>,
                <<-2, NONEV, 1>>, <<3, 1, -1>>, <<0, 0, 1>>, <<1, -1, 1>>, <<NONEV, NONEV, -2>>, <<5, NONEV, 1>> }
-IdxArgs == { <<0>>, <<-1>>, <<1, 1, 0>>, <<2, 0>>, <<-1, -2>>, <<3>>, <<-4>>, <<0, 2, 1>>, <<>> }
+IdxArgs == { <<0>>, <<-1>>, <<1, 1, 0>>, <<2, 0>>, <<-1, -2>>, <<3>>, <<-4>>, <<0, 2, 1>>, <<>>,
+             <<0, 0, 2>>, <<0, 2, 1, 3>>, <<1, 0, 0, 2, 1, 2>> }   \* permutations / repeats whose first and last span exactly n positions
 FillArgs == { <<-1>>, <<0, -1>>, <<-1, 1, -1>>, <<-2>>, <<2>>, <<>>, <<-1, -1>> }
 MaskArgs(n) == IF n = 0 THEN {<<>>} ELSE
                {[i \in 1..n |-> 1], [i \in 1..n |-> 0], [i \in 1..n |-> i % 2], [i \in 1..n |-> (i + 1) % 2]}
